@@ -1371,7 +1371,10 @@ func (g *G) fault(depth int) ast.Node {
 		return ast.Binary{Op: "+", L: ast.Name{N: "undefinedname"}, R: one}
 	case 6:
 		g.cls("fault:conversion")
-		return ast.Call{Fn: "aton", Args: []ast.Node{ast.StrLit{V: []string{"x1", "", "1 2", "abc"}[r.Intn(4)]}}}
+		if r.Chance(1, 5) { // a rendered number followed by a line break is not a number
+			return ast.Call{Fn: "aton", Args: []ast.Node{ast.Binary{Op: "+", L: ast.Call{Fn: "toa", Args: []ast.Node{g.Expr(Int, depth-1)}}, R: ast.StrLit{V: "\n"}}}}
+		}
+		return ast.Call{Fn: "aton", Args: []ast.Node{ast.StrLit{V: []string{"x1", "", "1 2", "abc", "12\n", "1.5\n", " 7", "7 ", "0x10"}[r.Intn(9)]}}}
 	case 7:
 		g.cls("fault:arity")
 		return ast.Call{Fn: "toa", Args: []ast.Node{one, one}}
